@@ -1123,6 +1123,10 @@ class C11(L1Prop):
                     ops.append(f"http POST as hyph=latest:1 hyph=1 {bad[0]} {bad[1]}")
                 ops.append("http GET snap - hyph=1 absent e")
             out.append(Case(f"c11-http-{k}", ops, {"http": True}, mode="http"))
+        # snapshot uploads of several clients interleaved chunk by chunk on one worker: id and bytes of
+        # what GetSnapshot returns always come from the same upload
+        from .props_http import interleaved_upload_cases
+        out += interleaved_upload_cases("c11", rng, sizes(tier, 12, 100))
         return out
     def relevant(self, i, trace):
         o, ri, rm = trace[i]
@@ -1146,21 +1150,21 @@ class C11(L1Prop):
         fails, tr = [], SnapTracker()
         if case.meta.get("http"):
             from .props_http import HOp, HResp
-            cur = None         # (version, body) of the most recent complete, well-formed upload for the latest version
+            cur = {}           # client -> (version, body) of its most recent complete, well-formed upload for the latest version
             for i, (o, ri, rm) in enumerate(trace):
                 if not o.startswith("http "):
                     continue
                 h, r = HOp(o), HResp(ri)
                 if h.route == "as":
                     if h.valid() and r.status == 200:
-                        cur = (h.seg, h.body())
+                        cur[h.cid] = (h.seg, h.body())
                     elif not h.valid() and r.status == 200:
                         fails.append(f"op {i}: an upload that was not complete / well-formed was answered 200: `{o[:90]}`")
                 if h.route == "snap":
                     got = (r.xv, r.body) if r.status == 200 else None
-                    if got != cur:
-                        fails.append(f"op {i}: get_snapshot returned {str(got)[:80]}, the most recently accepted upload is {str(cur)[:80]}")
-                        cur = got
+                    if got != cur.get(h.cid):
+                        fails.append(f"op {i}: get_snapshot returned {str(got)[:80]}, the most recently accepted upload is {str(cur.get(h.cid))[:80]}")
+                        cur[h.cid] = got
             return fails
         i = 0
         while i < len(trace):
